@@ -926,6 +926,7 @@ func (x *c16Runner) directionA(k *c16Case) {
 			continue
 		}
 		split := isSplit[id]
+		x.jsonTree(k, id, raw)
 		jt, err := c16CanonText(raw, false)
 		if split {
 			jt, err = c16CanonTopOrdered(raw)
